@@ -4,6 +4,7 @@
 -/
 import BespokeVerif.Model.Layout
 import BespokeVerif.Lemmas.Image
+import BespokeVerif.Lemmas.ImageFast
 namespace BV.C03
 open BV
 
@@ -94,5 +95,70 @@ theorem default_end_is_highest (es : List Emitted) (x : Int) (h : maxAddr (memMa
 example :
     imageOf 2 (some 5) 0 (memMap [⟨0, 4, [1, 2, 3, 4], false, true⟩, ⟨4, 4, [5, 6, 7, 8], false, true⟩])
       = [3, 4, 5, 6] := by decide +kernel
+
+/-! ## end to end: what the hypotheses above are worth for a program that was accepted
+
+The theorems above assume `NoCommonAddress`.  For the lines of any program the model accepts this holds -
+no hypothesis left: every byte line emits exactly the bytes the first pass reserved for it, so the ranges
+the overlap check compares are the ranges the bytes occupy. -/
+
+/-- every byte line of an assembled program emits exactly as many bytes as were reserved for it
+    (none when the reserved size is negative: a fill with a negative count) -/
+theorem emitted_sizes_match (cfg : Cfg) (files : List (List Stmt)) (es : List Emitted) (L : Labels)
+    (h : assembleLines cfg files = .ok (es, L)) (e : Emitted) (he : e ∈ es) (hb : e.isByte = true) :
+    (e.bytes.length : Int) = if 0 ≤ e.size then e.size else 0 :=
+  assembleLines_wf cfg files es L h e he hb
+
+/-- the lines of an accepted program: no two unmuted byte lines cover a common address -/
+theorem accepted_no_common_address (cfg : Cfg) (files : List (List Stmt)) (start : Int) (stop : Option Int) (fill : Nat)
+    (o : Outcome) (h : assemble cfg files start stop fill = .ok o) : NoCommonAddress o.emitted := by
+  unfold assemble at h
+  cases hl : assembleLines cfg files with
+  | error e => rw [hl] at h; cases h
+  | ok r =>
+    obtain ⟨es, L⟩ := r
+    rw [hl] at h
+    simp only [bind, Except.bind] at h
+    cases ho : overlapCheck none es with
+    | error e => rw [ho] at h; cases h
+    | ok u =>
+      rw [ho] at h
+      cases h
+      have hnc := noCommon_of_check es (assembleLines_wf cfg files es L hl) ho
+      exact List.Pairwise.imp (fun {e e'} hne a hc =>
+        hne a ⟨(cov_iff e a).mpr hc.1, (cov_iff e' a).mpr hc.2⟩) hnc
+
+/-- the default end of the window is the highest last-byte address of the lines -/
+theorem default_end_eq_last_byte (es : List Emitted) : maxAddr (memMap es) = lastByteAddr es :=
+  maxAddr_memMap_eq_last es
+
+/-- Full statement, no hypothesis: the image of an accepted program is, offset by offset, the byte of
+    the line that covers the address, the fill value where none does; without an explicit end it
+    stops at the highest address that received a byte.  (`assembleFast` computes exactly that, line by
+    line; it is what the driver of the correspondence runs.) -/
+theorem assemble_eq_fast (cfg : Cfg) (files : List (List Stmt)) (start : Int) (stop : Option Int) (fill : Nat) :
+    assemble cfg files start stop fill = assembleFast cfg files start stop fill :=
+  BV.assemble_eq_fast cfg files start stop fill
+
+theorem accepted_image_is_spec (cfg : Cfg) (files : List (List Stmt)) (start : Int) (stop : Option Int) (fill : Nat)
+    (o : Outcome) (h : assemble cfg files start stop fill = .ok o) :
+    o.image = imageFast start stop (fill % 256) o.emitted := by
+  rw [BV.assemble_eq_fast] at h
+  unfold assembleFast at h
+  cases hl : assembleLines cfg files with
+  | error e => rw [hl] at h; cases h
+  | ok r =>
+    obtain ⟨es, L⟩ := r
+    rw [hl] at h
+    simp only [bind, Except.bind] at h
+    cases ho : overlapCheck none es with
+    | error e => rw [ho] at h; cases h
+    | ok u => rw [ho] at h; cases h; rfl
+
+/-- non-vacuity: the line-by-line image of two 4-byte lines, window 2..5 -/
+example : imageFast 2 (some 5) 0 [⟨0, 4, [1, 2, 3, 4], false, true⟩, ⟨4, 4, [5, 6, 7, 8], false, true⟩] = [3, 4, 5, 6] := by
+  decide +kernel
+example : lastByteAddr [⟨0, 4, [1, 2, 3, 4], false, true⟩, ⟨9, 2, [5, 6], true, true⟩, ⟨4, 4, [5, 6, 7, 8], false, true⟩] = some 7 := by
+  decide +kernel
 
 end BV.C03
